@@ -45,7 +45,28 @@ def tie(ctx):
             bad.append({"case": line[:300], "model": o[:200], "numpy": rnp[:200], "numba": rnb[:200]})
             if len(bad) > 8:
                 break
-    return {"cases": len(lines), "disagreements": bad, "stats": {"grouped_sums": len(lines)}}
+    # float accuracy: a group's sum must not depend on what the other groups hold (one huge entry elsewhere - the friction
+    # factor 64/Re of a stagnant pipe is ~1e11 - must not cost the others their digits); exact reference: math.fsum per group
+    import math
+    nf = 0
+    for _ in range(ctx.budget(150, 3000)):
+        n = int(rng.integers(3, 40))
+        idx = rng.integers(0, max(2, n // 2), n)
+        vals = rng.uniform(0.005, 0.09, n)
+        vals[int(rng.integers(0, n))] = float(rng.choice([1e9, 6e10, 1e13]))
+        for nm, fn in (("numpy", _sum_by_group_np), ("numba", _sum_by_group_numba)):
+            keys, sums = fn(idx.copy(), vals.copy())
+            nf += 1
+            for kk, sv in zip(keys, sums):
+                grp = vals[idx == kk]
+                exact = math.fsum(grp)
+                if abs(sv - exact) > 4 * np.finfo(float).eps * float(np.sum(np.abs(grp))) * len(grp):
+                    bad.append({"case": "float accuracy of %s grouped sum" % nm, "group": int(kk), "got": float(sv), "exact": exact,
+                                "group_values": grp[:4].tolist(), "largest_entry_elsewhere": float(vals.max())})
+                    break
+            if len(bad) > 8:
+                break
+    return {"cases": len(lines) + nf, "disagreements": bad, "stats": {"grouped_sums": len(lines), "float_accuracy_cases": nf}}
 
 
 # ---- search: relabelled / permuted / re-ordered descriptions ------------------------------------------
@@ -108,6 +129,24 @@ def oracle(spec):
         imap[NAME[t]] = {spec[t][i]["index"]: s2[t][i]["index"] for i in range(len(spec[t]))}
     d = oracles.compare_results(na, nb, atol=1e-6, rtol=1e-5, index_map=imap)
     fails = []
+    # the per-section results of multi-section pipes (Pipe.get_internal_results) belong to "the results" as well
+    try:
+        from pandapipes.component_models.pipe_component import Pipe
+        multi = [i for i in range(len(spec["pipes"])) if spec["pipes"][i]["sections"] > 1 and spec["pipes"][i]["in_service"]]
+        for i in multi[:3]:                 # one pipe per call (the helper wants equal section counts within a call)
+            la = np.array([spec["pipes"][i]["index"]])
+            lb = np.array([s2["pipes"][i]["index"]])
+            ra, rb = Pipe.get_internal_results(na, la), Pipe.get_internal_results(nb, lb)
+            for key in ("PINIT", "TINIT", "VINIT_MEAN"):
+                xa, xb = np.asarray(ra[key], float)[:, 1], np.asarray(rb[key], float)[:, 1]
+                if xa.shape != xb.shape or not np.allclose(xa, xb, rtol=1e-5, atol=1e-6, equal_nan=True):
+                    fails.append({"fingerprint": "C06:internal-results:%s%s:%s" % ("gas:" if spec["fluid"] != "water" else "", spec["c06"]["kind"], key),
+                                  "clause": "same physical system, different %s" % spec["c06"]["kind"],
+                                  "detail": {"pipes": la.tolist(), "variant_pipes": lb.tolist(), "a": xa[:4].tolist(), "b": xb[:4].tolist()}})
+                    break
+    except Exception as ex:
+        fails.append({"fingerprint": "C06:internal-results:%s%s:raises:%s" % ("gas:" if spec["fluid"] != "water" else "", spec["c06"]["kind"], type(ex).__name__),
+                      "clause": "per-section results available for any labelling", "detail": {"exc": repr(ex)[:200]}})
     if d:
         fails.append({"fingerprint": "C06:%s:%s:%s" % (spec["c06"]["kind"], d[0][0], d[0][1]),
                       "clause": "same physical system, different %s" % spec["c06"]["kind"],
